@@ -448,6 +448,31 @@ def _w_standalone_takes_item(self, op):
     return core.call(o.value.prepend_item if op.get("how") == "prepend" else o.value.append_item, item)
 
 
+def _w_reshape_edge(self, op):
+    """a GFA2 edge is asked what it is, disconnected, given other references / positions and added again"""
+    l = self.gfa.line(op["id"])
+    if l is None or l.record_type != "E":
+        self.st.count("op.skipped")
+        return core.Outcome(True, "skipped")
+    # questions first (whatever an implementation remembers of the answers must not outlive the edit)
+    for q in (l.is_dovetail, l.is_containment, l.is_internal, lambda: l.from_end, lambda: l.to_end,
+              self.gfa.connected_components, lambda: self.gfa.dovetails):
+        core.call(q)
+    o = core.call(l.disconnect)
+    if not o.ok:
+        return o
+    self.removed.append(l)
+    f = op["line"].split("\t")
+    for name_, val in zip(("sid1", "sid2", "beg1", "end1", "beg2", "end2"), f[2:8]):
+        o = core.call(l.set, name_, val)
+        if not o.ok:
+            return o
+    o = core.call(self.gfa.add_line, l)
+    if o.ok:
+        self.removed = [x for x in self.removed if x is not l]
+    return o
+
+
 def _w_add_many(self, op):
     """several lines added in one step (one observation); the outcome is that of the first failure"""
     for ln in op["lines"]:
@@ -459,6 +484,7 @@ def _w_add_many(self, op):
 
 World.do_add_many = _w_add_many
 World.do_rm_other_group = _w_rm_other_group
+World.do_reshape_edge = _w_reshape_edge
 World.do_standalone_takes_item = _w_standalone_takes_item
 World.do_grp_edit = _w_grp_edit
 World.do_hold = _w_hold
